@@ -20,6 +20,9 @@ CONFIGS = {
                        "-DPP_METHD=LAZYR;OATEP"], "cflags": "-O2"},
     "cov": {"cmake": [], "cflags": "-O1 -g -finstrument-functions"},
     "mt": {"cmake": ["-DMULTI=PTHREAD"], "cflags": "-O2"},
+    # C05: the other two RSA paddings (the pinned one is PKCS2 = PSS); the BASIC build also takes the non-CRT private-key path
+    "rsa-pkcs1": {"cmake": ["-DCP_RSAPD=PKCS1"], "cflags": "-O2"},
+    "rsa-basic": {"cmake": ["-DCP_RSAPD=BASIC", "-DCP_CRT=off"], "cflags": "-O2"},
 }
 
 
